@@ -56,6 +56,19 @@ RULE = ("world size P in 1..6, 1..12 trajectories of length 1..5 (P <= number of
         "the same four generator modes; (asa) assemble_striped_array on float64/float32/float16 eighths (non-integral, "
         "some below 1), int64/int32/uint8, bool, 1-D and 2-D/3-D rows, P = 1..6: values, shape and dtype must come back on "
         "every rank, an entry <= 0 must be refused (model: assemble_flat / gen_assemble_striped_array on row identities).  "
+        "Round 3s, second wave: (ctrs) every ops case also hands ctr_ids_mpi two lists of 1..6 DISTINCT flat global frame "
+        "numbers in a given order -- descending / rotated / one adjacent swap / shuffled / ascending in turn, plus a random "
+        "one -- and the same lists as (trajectory, frame) pairs: the (rank, local) pairs must be the serial definition's LABEL "
+        "BY LABEL and convert_local_indices must give the list back in order (model: map ctr_ids_mpi / gen_ctr_ids_mpi_flat / "
+        "gen_cim_pair over the list); (kmw) kmedoids(...) warm-started on every rank of P = 1..6 from one global state -- "
+        ">= 3 centres as flat global frame numbers in such an order, or in the order serial k-centers found them, labels and "
+        "distances of the nearest centre, X_lengths -- with fixed proposals (a member of each cluster, or any frame) for 1..2 "
+        "sweeps, exact metrics (integer table, manhattan, 1-D euclidean): after reassembly centres, labels and distances must "
+        "equal the serial kmedoids sweep from the same state with the same proposals (model: pam_steps_mpi from "
+        "mkds (map ctr_ids_mpi c) c (scatter ...)); (io zero-row) .h5 files written with PyTables EArrays under ra.save's node "
+        "names in which one or two tables (first / middle / last) have ZERO rows, P = 1..4 <= number of tables, strides 1..3: "
+        "global lengths and every rank's stripe must be what ra.load of the same file reports (one length per table, zeros "
+        "included; model: loaded / strided_len on the lengths with zeros).  "
         "non-trivial := P >= 2 and at "
         "least 2 trajectories and (for clustering) >= 2 centres")
 TRUSTED = cc.TRUSTED + [
@@ -65,7 +78,11 @@ TRUSTED = cc.TRUSTED + [
     "translator/tr_mpi.py + Base/MpiGenBase.v (round 3): the reading of NumPy / RaggedArray / mpi4py calls as the vocabulary "
     "np_arange, nslice (Base/PySlice.v), nput_slice, ra_make, ra_where_first, bcast, allgather, allreduce_*, ...; statements "
     "that are array glue (buffer allocation, dtype casts, asserts, logging, the md.Trajectory wrapping) are pinned as text"]
-ASSUMPTIONS = ["world size <= number of trajectories, every trajectory has >= 1 frame (the loaders require it)",
+ASSUMPTIONS = ["world size <= number of trajectories, every trajectory has >= 1 frame (clustering, reductions and the npy loader "
+               "require it; the h5 loader is also fed tables with zero rows: stream io zero-row)",
+               "k-medoids warm start (kmw): centres are distinct frames, the supplied labels/distances are those of the nearest "
+               "supplied centre, distances exact in double arithmetic (integer-valued metrics), so that the accept test "
+               "new_cost < old_cost cannot depend on the summation order",
                "MPI warm start: init_centers is a non-empty list of distinct frames of the data (every rank passes the same list)",
                "owner ranks handed to convert_local_indices are < world size",
                "equality with the serial run is claimed for tie-free data only (unique farthest frame at every iteration); "
@@ -374,6 +391,91 @@ def gen_io(rng):
             "width": rng.randint(1, 3), "jitter": [rng.choice([None, rng.randrange(10 ** 6)])]}
 
 
+CTR_ORDERS = ["desc", "rot", "swap", "shuffle", "asc"]
+
+
+def gen_ctrs(rng, n, order=None, k=None):
+    """round 3s (second wave): k distinct global frame numbers in a given ORDER -- position in the list is the cluster
+    label, so every consumer must keep it.  desc = descending, rot = an ascending list rotated, swap = ascending with one
+    adjacent pair exchanged, shuffle = any non-ascending permutation, asc = ascending (the control)"""
+    if k is None:
+        k = rng.randint(min(3, n), min(n, 6))
+    c = sorted(rng.sample(range(n), k))
+    order = order or rng.choice(CTR_ORDERS)
+    if k >= 2:
+        if order == "desc":
+            c.reverse()
+        elif order == "rot":
+            j = rng.randrange(1, k)
+            c = c[j:] + c[:j]
+        elif order == "swap":
+            i = rng.randrange(k - 1)
+            c[i], c[i + 1] = c[i + 1], c[i]
+        elif order == "shuffle":
+            while c == sorted(c):
+                rng.shuffle(c)
+    return c
+
+
+def gen_kmw(rng, order, start):
+    """round 3s (second wave): one global k-medoids state (>= 3 centres as FLAT GLOBAL frame numbers, labels and
+    distances of the nearest centre) handed to kmedoids(...) on every rank of a world (warm start: cluster_center_inds,
+    assignments, distances, X_lengths) with fixed proposals, and to the serial kmedoids: same sweep, same result.
+    start = given: the centre list of the case (order as in gen_ctrs); kcenters: the centres of a serial k-centers run in
+    the order it found them (not ascending as a rule for k >= 3).  Exact metrics only (integer table, manhattan and 1-D
+    euclidean on small integer points): the accept test compares sums that are exact in doubles"""
+    P, lens = gen_lens(rng, rng.choice([1, 2, 2, 3, 3, 4, 4, 5, 6]))
+    n = sum(lens)
+    while n < 4 or n > 24:
+        P, lens = gen_lens(rng, rng.choice([1, 2, 2, 3, 3, 4, 4, 5, 6]))
+        n = sum(lens)
+    c = {"kind": "kmw", "P": P, "lens": lens, "n": n, "start": start}
+    r = rng.random()
+    if r < 0.3:
+        M, tri = cc.gen_matrix(rng, n, rng.choice([3, 6, 12, 40]))
+        c.update(metric="matrix", M=M, tri=tri)
+    elif r < 0.7:
+        c.update(metric="manhattan", X=cc.gen_points(rng, n, rng.randint(1, 3), rng.choice([4, 6, 10, 30])))
+    else:
+        c.update(metric="euclidean", X=cc.gen_points(rng, n, 1, rng.choice([n + 2, 20, 60])))
+    if c["metric"] != "matrix":
+        c["dtype"] = rng.choice(["float64", "float64", "float32", "int32", "int64"])
+    k = rng.randint(3, min(n, 5))
+    c["k"] = k
+    c["ctrs"] = gen_ctrs(rng, n, order, k) if start == "given" else None
+    # proposals: frame numbers; "member" = proposal j is the (props[j] mod size)-th member of cluster j in the start state
+    c["props"] = [rng.randrange(n) for _ in range(k)]
+    c["props_mode"] = rng.choice(["member", "member", "any"])
+    c["n_iters"] = rng.choice([1, 1, 2])
+    c["jitter"] = gen_jitter(rng)
+    return c
+
+
+IOZ_WHERE = ["first", "middle", "last", "two", "random"]
+
+
+def gen_ioz(rng, where):
+    """round 3s (second wave): an .h5 file in which some TABLE HAS ZERO ROWS (an EArray nobody appended to yet; ra.save
+    never writes one, PyTables does), node names as ra.save gives them; only the h5 loader is run on it"""
+    P = rng.choice([1, 2, 2, 3, 3, 4])
+    ntr = max(P, 3 if where in ("middle", "two") else 2) + rng.choice([0, 0, 1, 2, 3])
+    lens = [rng.randint(1, 5) for _ in range(ntr)]
+    if where == "first":
+        z = [0]
+    elif where == "last":
+        z = [ntr - 1]
+    elif where == "middle":
+        z = [rng.randint(1, ntr - 2)]
+    elif where == "two":
+        z = rng.sample(range(ntr), 2)
+    else:
+        z = rng.sample(range(ntr), rng.randint(1, ntr - 1))
+    for i in z:
+        lens[i] = 0
+    return {"kind": "io", "zrows": True, "P": P, "lens": lens, "n": sum(lens), "stride": rng.choice([1, 2, 3]),
+            "width": rng.randint(1, 3), "jitter": [rng.choice([None, rng.randrange(10 ** 6)])]}
+
+
 def generate(rng, tier):
     mult = 1 if tier == "quick" else 10
     cases = []
@@ -407,6 +509,17 @@ def generate(rng, tier):
                     cases.append({"kind": "ops", "P": P, "lens": list(lens), "n": n, "vals": [(7 * i) % 10 for i in range(n)],
                                   "ns": [(lens[r] + r) % 4 for r in range(P)] if sum((lens[r] + r) % 4 for r in range(P)) else [1] * P,
                                   "dtype": "float64", "jitter": None})
+    # round 3s, second wave (drawn after everything else, so that the earlier streams are what they were)
+    j = 0
+    for c in cases:
+        if c["kind"] == "ops":
+            # centre lists in a given order (position = label): one order in turn, one at random
+            c["ctrs"] = [gen_ctrs(rng, c["n"], CTR_ORDERS[j % len(CTR_ORDERS)]), gen_ctrs(rng, c["n"])]
+            j += 1
+    for i in range(40 * mult):
+        cases.append(gen_kmw(rng, CTR_ORDERS[i % len(CTR_ORDERS)], "kcenters" if i % 3 == 2 else "given"))
+    for i in range(15 * mult):
+        cases.append(gen_ioz(rng, IOZ_WHERE[i % len(IOZ_WHERE)]))
     return cases
 
 
@@ -514,6 +627,14 @@ def run_ops(c):
         o["convert"] = [int(v) for v in ops.convert_local_indices(pairs, gl)]
         o["ids_flat"] = [[int(a), int(b)] for a, b in KM.ctr_ids_mpi(list(range(n)), list(lens))]
         o["ids_pair"] = [[int(a), int(b)] for a, b in KM.ctr_ids_mpi([list(p) for p in tf], list(lens))]
+        if c.get("ctrs"):
+            # round 3s (second wave): centre lists in the caller's order -- flat, and the same frames as (trajectory, frame)
+            o["ctrs_flat"], o["ctrs_pair"], o["ctrs_back"] = [], [], []
+            for cl in c["ctrs"]:
+                ids = KM.ctr_ids_mpi([int(g) for g in cl], list(lens))
+                o["ctrs_flat"].append([[int(a), int(b)] for a, b in ids])
+                o["ctrs_back"].append([int(v) for v in ops.convert_local_indices(ids, gl)])
+                o["ctrs_pair"].append([[int(a), int(b)] for a, b in KM.ctr_ids_mpi([list(tf[g]) for g in cl], list(lens))])
         o["lens"] = [int(v) for v in ops.assemble_striped_array(gl[r::P])]
         asm = ops.assemble_striped_ragged_array(loc, gl)
         o["asm"] = [int(v) for v in asm]
@@ -525,6 +646,77 @@ def run_ops(c):
             return {"ranks": mpisim.run_ranks(P, fn, jitter=seed, timeout=CASE_TIMEOUT, stats=stats)}
         except Exception as ex:
             return _err(ex)
+    return _run_schedules(c, once)
+
+
+def ref_pairs(lens, P):
+    """the serial definition of the index map: global frame -> [owner rank, index in the owner's local array]"""
+    return {g: [r, i] for r in range(P) for i, g in enumerate(local_ids(lens, r, P))}
+
+
+def run_kmw(c):
+    from enspara.cluster import kcenters as KC, kmedoids as KM, util as KU
+    from enspara.mpi import ops
+    X = cc.make_X(c)
+    metric = cc.make_metric(c)
+    P, lens, k = c["P"], c["lens"], c["k"]
+    out = {"D": [[str(v) for v in row] for row in cc.dist_matrix(X, metric)]}
+    try:
+        if c["start"] == "kcenters":
+            st = KC.kcenters(X.copy(), metric, n_clusters=k)
+            c0 = [int(i) for i in st.center_indices]
+            A0, D0 = np.array(st.assignments), np.array(st.distances)
+        else:
+            c0 = [int(g) for g in c["ctrs"]]
+            A0, D0 = KU.assign_to_nearest_center(X, X[c0], KU._get_distance_method(metric))
+        # snapshot (plain Python values) before anything else sees the arrays
+        out["start"] = {"ctrs": list(c0), "asg": [int(a) for a in A0], "dst": [_q(d) for d in D0]}
+        props = []
+        for j in range(len(c0)):
+            mem = [f for f in range(len(A0)) if int(A0[f]) == j]
+            pj = c["props"][j % len(c["props"])]
+            props.append(int(mem[pj % len(mem)]) if (c["props_mode"] == "member" and mem) else int(pj))
+        out["props"] = props
+    except Exception as ex:
+        out.update(_err(ex))
+        out["err"] = "Start" + out["err"]
+        return out
+    try:
+        ser = KM.kmedoids(X.copy(), metric, cluster_center_inds=list(c0), assignments=A0.copy(), distances=D0.copy(),
+                          proposals=list(props), n_iters=c["n_iters"])
+        out["serial"] = cc.canon(ser, X)
+    except Exception as ex:
+        out["serial"] = _err(ex)
+    gl = np.array(lens)
+    inv = ref_pairs(lens, P)
+
+    def fn(r):
+        ids = local_ids(lens, r, P)
+        loc = local_rows(X, lens, r, P).copy()
+        res = KM.kmedoids(loc, metric, cluster_center_inds=list(c0), assignments=A0[ids].copy(), distances=D0[ids].copy(),
+                          X_lengths=[int(v) for v in lens], n_iters=c["n_iters"],
+                          proposals=[tuple(inv[g]) for g in props] if P > 1 else list(props))
+        # world size 1 is the serial code path: flat indices, (0, g) as pairs
+        ctr = [[int(a[0]), int(a[1])] if hasattr(a, "__len__") else [0, int(a)] for a in res.center_indices]
+        o = {"ctr": ctr, "asg": [int(a) for a in res.assignments], "dst": [_q(d) for d in res.distances]}
+        ci = [int(i) for i in ops.convert_local_indices(ctr, gl)]
+        o["ci"] = ci
+        o["A"] = [int(a) for a in ops.assemble_striped_ragged_array(np.asarray(res.assignments), gl)]
+        o["Dd"] = [_q(d) for d in ops.assemble_striped_ragged_array(np.asarray(res.distances), gl)]
+        o["cen_ok"] = bool(len(res.centers) == len(ci) and all(
+            np.array_equal(np.asarray(cen), np.asarray(X[i])) for cen, i in zip(res.centers, ci)))
+        pairs = KM.ctr_ids_mpi(list(c0), [int(v) for v in lens])
+        o["ids"] = [[int(a), int(b)] for a, b in pairs]
+        o["back"] = [int(v) for v in ops.convert_local_indices(pairs, gl)]
+        return o
+
+    def once(seed, stats):
+        o = dict(out)
+        try:
+            o["ranks"] = mpisim.run_ranks(P, fn, jitter=seed, timeout=CASE_TIMEOUT, stats=stats)
+        except Exception as ex:
+            o.update(_err(ex))
+        return o
     return _run_schedules(c, once)
 
 
@@ -595,9 +787,30 @@ def run_io(c):
     d = tempfile.mkdtemp(prefix="c14io")
     try:
         h5 = os.path.join(d, "f.h5")
-        ra.save(h5, ra.RaggedArray(np.concatenate(rows), lengths=lens) if len(lens) > 1 else rows[0])
+        zrows = bool(c.get("zrows"))
+        serial = None
+        if zrows:
+            # round 3s (second wave): tables without rows cannot be written by ra.save; PyTables EArrays under the node
+            # names ra.save would use.  The serial loader's report of the same file is the reference.
+            import tables
+            nz = len(str(len(lens))) + 1
+            with tables.open_file(h5, "w") as h:
+                for t, row in enumerate(rows):
+                    e = h.create_earray("/", "arr_" + str(t).zfill(nz), atom=tables.Float64Atom(), shape=(0, w))
+                    if len(row):
+                        e.append(row)
+            try:
+                sa = ra.load(h5, stride=stride)
+                serial = {"lens": [int(v) for v in sa.lengths],
+                          "ids": [int(v) for v in np.asarray(sa._data).reshape(len(sa._data), -1)[:, 0]],
+                          "rows_equal": bool(len(sa.lengths) == len(rows) and all(
+                              np.array_equal(np.asarray(sa[t]).reshape(-1, w), rows[t][::stride]) for t in range(len(rows))))}
+            except Exception as ex:
+                serial = _err(ex)
+        else:
+            ra.save(h5, ra.RaggedArray(np.concatenate(rows), lengths=lens) if len(lens) > 1 else rows[0])
         files = []
-        for t, row in enumerate(rows):
+        for t, row in enumerate(rows if not zrows else []):
             # names whose lexicographic order differs from the caller's order (a loader that sorts
             # or globs the list itself would attribute stripes to the wrong files)
             fn_ = os.path.join(d, "x%d_%02d.npy" % ((7 * t + 3) % 10, t))
@@ -609,17 +822,22 @@ def run_io(c):
             exp = local_rows(data, lens, r, P, stride)
             for name, call in (("h5", lambda: mio.load_h5_as_striped(h5, stride=stride)),
                                ("npy", lambda: mio.load_npy_as_striped(files, stride=stride))):
+                if zrows and name == "npy":
+                    continue
                 gl_, loc = call()
                 loc = np.asarray(loc)
-                o[name] = {"lens": [int(v) for v in gl_], "ids": [int(v) for v in loc.reshape(len(loc), -1)[:, 0]],
+                o[name] = {"lens": [int(v) for v in gl_], "ids": [int(v) for v in loc.reshape(len(loc), -1)[:, 0]] if len(loc) else [],
                            "equal": bool(loc.shape == exp.shape and np.array_equal(loc, exp))}
             return o
 
         def once(seed, stats):
             try:
-                return {"ranks": mpisim.run_ranks(P, fn, jitter=seed, timeout=CASE_TIMEOUT, stats=stats)}
+                o = {"ranks": mpisim.run_ranks(P, fn, jitter=seed, timeout=CASE_TIMEOUT, stats=stats)}
             except Exception as ex:
-                return _err(ex)
+                o = _err(ex)
+            if serial is not None:
+                o["serial"] = serial
+            return o
         return _run_schedules(c, once)
     except Exception as ex:
         return _err(ex)
@@ -635,7 +853,7 @@ def run_impl(c):
     if _hangs.get(kind, 0) >= 3:     # circuit breaker: do not wait out a tree that hangs on every case
         return {"err": "RanksTimeout", "msg": "not run: three earlier %s cases already hung" % kind}
     out = (run_cluster(c) if kind in ("kc", "kcw", "hybrid") else run_ops(c) if kind == "ops" else
-           run_rand(c) if kind == "rand" else run_asa(c) if kind == "asa" else run_io(c))
+           run_rand(c) if kind == "rand" else run_asa(c) if kind == "asa" else run_kmw(c) if kind == "kmw" else run_io(c))
     if out.get("err") == "RanksTimeout":
         _hangs[kind] = _hangs.get(kind, 0) + 1
     return out
@@ -784,11 +1002,45 @@ def coq_check(c, out):
             "CaseLib.opt_eqb CaseLib.zl_eqb (gen_assemble_striped_ragged_array 0%%Z %s %s (scatter %s %s %s)) (Some %s)" % (
                 P, lens, P, lens, clist(c["vals"], cz, "Z"), clist(r0["asm"], cz, "Z")),
         ]
+        for cl, fl, pr, bk in zip(c.get("ctrs") or [], r0.get("ctrs_flat", []), r0.get("ctrs_pair", []), r0.get("ctrs_back", [])):
+            # round 3s (second wave): centre lists in the caller's order, label by label
+            parts += [
+                "CaseLib.list_eqb opair_eqb (map (ctr_ids_mpi %s %s) %s) (map Some %s)" % (P, lens, _nl(cl), _pairs(fl)),
+                "CaseLib.list_eqb opair_eqb (map (gen_ctr_ids_mpi_flat %s %s) %s) (map Some %s)" % (P, lens, _nl(cl), _pairs(fl)),
+                "CaseLib.list_eqb opair_eqb (map (ctr_pair_mpi %s %s) %s) (map Some %s)" % (P, lens, _pairs([tf[g] for g in cl]), _pairs(pr)),
+                "CaseLib.list_eqb opair_eqb (map (gen_cim_pair %s %s) %s) (map Some %s)" % (P, lens, _pairs([tf[g] for g in cl]), _pairs(pr)),
+                "CaseLib.list_eqb onat_eqb (map (convert_local %s %s) %s) (map Some %s)" % (P, lens, _pairs(fl), _nl(bk)),
+                "CaseLib.opt_eqb CaseLib.nl_eqb (gen_convert_local_indices %s %s %s) (Some %s)" % (P, lens, _pairs(fl), _nl(bk))]
         return " && ".join("(%s)" % p for p in parts)
+    if c["kind"] == "kmw":
+        # the distributed sweep from the state the ranks were handed: centre pairs = map ctr_ids_mpi over the flat list (in its
+        # order), frames scattered round-robin, then one PAM step per (sweep, label) with the proposal's (rank, local) pair
+        r0, st = rk[0], out["start"]
+        inv = ref_pairs(c["lens"], c["P"])
+        frames = clist(list(zip(range(c["n"]), st["asg"], st["dst"])),
+                       lambda t: "(mkfr %s %s %s)" % (cn(t[0]), cn(t[1]), cq(F(t[2]))), "fr")
+        steps = clist([(j, inv[g]) for _ in range(c["n_iters"]) for j, g in enumerate(out["props"])],
+                      lambda t: "(%s, (%s, %s))" % (cn(t[0]), cn(t[1][0]), cn(t[1][1])), "(nat * (nat * nat))")
+        exp = "(Some (%s, %s, %s))" % (_pairs(r0["ctr"]), clist([r["asg"] for r in rk], _nl, "(list nat)"),
+                                       clist([r["dst"] for r in rk], _ql, "(list Q)"))
+        c0 = _nl(st["ctrs"])
+        parts = ["match all_some (map (ctr_ids_mpi %s %s) %s) with Some cp => ds_eqb (pam_steps_mpi (Dm M) %s "
+                 "(mkds cp %s (scatter %s %s %s))) %s | None => false end" % (P, lens, c0, steps, c0, P, lens, frames, exp),
+                 "CaseLib.list_eqb opair_eqb (map (ctr_ids_mpi %s %s) %s) (map Some %s)" % (P, lens, c0, _pairs(r0["ids"])),
+                 "CaseLib.list_eqb opair_eqb (map (gen_ctr_ids_mpi_flat %s %s) %s) (map Some %s)" % (P, lens, c0, _pairs(r0["ids"])),
+                 "CaseLib.opt_eqb CaseLib.nl_eqb (gen_convert_local_indices %s %s %s) (Some %s)" % (P, lens, _pairs(r0["ids"]), _nl(r0["back"])),
+                 "CaseLib.opt_eqb CaseLib.nl_eqb (gen_convert_local_indices %s %s %s) (Some %s)" % (P, lens, _pairs(r0["ctr"]), _nl(r0["ci"])),
+                 "CaseLib.opt_eqb CaseLib.nl_eqb (gen_assemble_striped_ragged_array 0%%nat %s %s %s) (Some %s)" % (
+                     P, lens, clist([r["asg"] for r in rk], _nl, "(list nat)"), _nl(r0["A"])),
+                 "CaseLib.opt_eqb CaseLib.ql_eqb (gen_assemble_striped_ragged_array 0%%Q %s %s %s) (Some %s)" % (
+                     P, lens, clist([r["dst"] for r in rk], _ql, "(list Q)"), _ql(r0["Dd"]))]
+        return "(let M := %s in %s)" % (cc.D_term(out), " && ".join("(%s)" % p for p in parts))
     # io
     parts = []
     for r, o in enumerate(rk):
         for name in ("h5", "npy"):
+            if name not in o:
+                continue
             parts.append("CaseLib.nl_eqb (loaded %s %s %s %s) %s" % (P, cn(r), cn(c["stride"]), lens, _nl(o[name]["ids"])))
     parts.append("CaseLib.nl_eqb (map (strided_len %s) %s) %s" % (cn(c["stride"]), lens, _nl(rk[0]["h5"]["lens"])))
     return " && ".join("(%s)" % p for p in parts)
@@ -800,6 +1052,8 @@ def coq_show(c, out=None):
     P, lens = cn(c["P"]), _nl(c["lens"])
     if c["kind"] in ("kc", "kcw", "hybrid") and "ranks" in out:
         return "(let M := %s in ds_show %s)" % (cc.D_term(out), _model_cluster(c, out))
+    if c["kind"] == "kmw":
+        return "(map (ctr_ids_mpi %s %s) %s)" % (P, lens, _nl(out["start"]["ctrs"])) if "start" in out else "tt"
     if c["kind"] == "ops":
         return "(map (randind %s) (seq 0 %s), map (ctr_ids_mpi %s %s) (seq 0 %s), striped_mean (scatter %s %s %s))" % (
             _nl(c["ns"]), cn(sum(c["ns"])), P, lens, cn(c["n"]), P, lens, _ql([str(v) for v in c["vals"]]))
@@ -885,9 +1139,76 @@ def oracle_rand(c, out):
     return fails
 
 
+def _ctr_order_fails(what, P, lens, cl, flat, back, pair=None):
+    """position in a centre list is the cluster label: the (rank, local) pairs must be the serial definition's label by
+    label, and convert_local_indices must give the caller's list back, in order"""
+    inv = ref_pairs(lens, P)
+    exp = [inv[g] for g in cl]
+    fails = []
+    if flat != exp:
+        fails.append(("ctr-ids-order", "%s: ctr_ids_mpi gave (rank, local) pairs %s; label by label the serial definition "
+                      "gives %s%s" % (what, flat, exp, " (the same pairs in another order)" if sorted(flat) == sorted(exp) else "")))
+    if back != list(cl):
+        fails.append(("ctr-ids-roundtrip", "%s: convert_local_indices(ctr_ids_mpi(c)) = %s, not the centres in the order given" % (what, back)))
+    if pair is not None and pair != exp:
+        fails.append(("ctr-ids-pair-order", "%s: given as (trajectory, frame) pairs, ctr_ids_mpi gave %s; label by label "
+                      "the serial definition gives %s" % (what, pair, exp)))
+    return fails
+
+
+def oracle_kmw(c, out):
+    if "err" in out:
+        return [("impl-error", "%s: %s" % (out["err"], out.get("msg")))]
+    P, lens, st = c["P"], c["lens"], out["start"]
+    what = ("k-medoids, %d sweep(s), warm-started from centres %s (flat global frame numbers%s), trajectory lengths %s, "
+            "%d rank(s), proposals %s" % (c["n_iters"], st["ctrs"], ", as serial k-centers found them" if c["start"] == "kcenters" else "",
+                                           lens, P, out["props"]))
+    fails = []
+    if out.get("rerun_diff"):
+        fails.append(("arrival-order", "the ranks' results depend on the order of arrival at the collectives: " + out["rerun_diff"]))
+    rk = out["ranks"]
+    r0 = rk[0]
+    for r, o in enumerate(rk):
+        f = _ctr_order_fails("centres %s, trajectory lengths %s, %d rank(s), rank %d" % (st["ctrs"], lens, P, r),
+                             P, lens, st["ctrs"], o["ids"], o["back"])
+        if f:
+            fails += f
+            break
+    for r, o in enumerate(rk):
+        if (o["ci"], o["A"], o["Dd"], o["ctr"]) != (r0["ci"], r0["A"], r0["Dd"], r0["ctr"]):
+            fails.append(("ranks-disagree", "%s: rank %d reassembled a different result than rank 0" % (what, r)))
+            break
+        if not o["cen_ok"]:
+            fails.append(("center-not-frame", "%s: rank %d: a reported centre is not the frame at its global index" % (what, r)))
+            break
+        ids = local_ids(lens, r, P)
+        if o["asg"] != [r0["A"][g] for g in ids] or o["dst"] != [r0["Dd"][g] for g in ids]:
+            fails.append(("assemble", "%s: rank %d: its local labels/distances are not at their global positions" % (what, r)))
+            break
+    ser = out["serial"]
+    if "err" in ser:
+        fails.append(("serial-error", "%s: the serial sweep raised %s" % (what, ser)))
+        return fails
+    if (ser["ctrs"], ser["asg"], ser["dst"]) != (r0["ci"], r0["A"], r0["Dd"]):
+        diff = [nm for nm, a, b in (("centres", ser["ctrs"], r0["ci"]), ("labels", ser["asg"], r0["A"]),
+                                    ("distances", ser["dst"], r0["Dd"])) if a != b]
+        fails.append(("kmedoids-mpi-vs-serial", "%s: the distributed sweep returns centres %s labels %s; the serial sweep from the "
+                      "same state with the same proposals returns centres %s labels %s (%s differ)" % (
+                          what, r0["ci"], r0["A"], ser["ctrs"], ser["asg"], ", ".join(diff))))
+    # the invariants of the serial result must hold for the distributed one too (never more than the serial run satisfies)
+    ser_inv = {k_ for k_, _ in cc.inv_failures({"res": ser, "D": out["D"]})}
+    glob = {"res": {"ctrs": r0["ci"], "asg": r0["A"], "dst": r0["Dd"], "centers_are_frames": True}, "D": out["D"]}
+    for key, msg in cc.inv_failures(glob):
+        if key not in ser_inv:
+            fails.append(("mpi-" + key, "%s: %s" % (what, msg)))
+    return fails
+
+
 def oracle(c, out):
     if c["kind"] == "asa":
         return oracle_asa(c, out)
+    if c["kind"] == "kmw":
+        return oracle_kmw(c, out)
     if c["kind"] == "rand":
         return oracle_rand(c, out)
     if "err" in out:
@@ -955,10 +1276,32 @@ def oracle(c, out):
             fails.append(("assemble-array", "%s != %s" % (r0["lens"], lens)))
         if r0["asm"] != vals or not r0["asm_dtype_ok"]:
             fails.append(("assemble-ragged", "%s != %s" % (r0["asm"], vals)))
+        for i, cl in enumerate(c.get("ctrs") or []):
+            fails += _ctr_order_fails("centres %s (global frame numbers), trajectory lengths %s, %d rank(s)" % (cl, lens, P),
+                                      P, lens, cl, r0["ctrs_flat"][i], r0["ctrs_back"][i], r0["ctrs_pair"][i])
         return fails
     # io
     exp_lens = [len(range(0, L, c["stride"])) for L in lens]
     seen = []
+    if c.get("zrows"):
+        # the serial loader's report of the same file is the reference: one length per table, zeros included
+        ser = out.get("serial") or {"err": "missing"}
+        what = "file with tables of %s rows (EArrays arr_0.., written with PyTables), stride %d, %d rank(s)" % (lens, c["stride"], P)
+        if "err" in ser:
+            return [("serial-loader", "%s: ra.load raised %s" % (what, ser))]
+        if ser["lens"] != exp_lens or not ser["rows_equal"]:
+            fails.append(("serial-loader", "%s: ra.load reports lengths %s, the tables strided have %s" % (what, ser["lens"], exp_lens)))
+        for r, o in enumerate(rk):
+            if o["h5"]["lens"] != ser["lens"]:
+                fails.append(("loader-lengths-h5", "%s, rank %d: global lengths %s, but the serial loader (ra.load) reports %s" % (
+                    what, r, o["h5"]["lens"], ser["lens"])))
+            if not o["h5"]["equal"]:
+                fails.append(("loader-data-h5", "%s, rank %d: the local array holds frames %s, tables %s (strided) are frames %s" % (
+                    what, r, o["h5"]["ids"], owned(lens, r, P), [int(v) for v in local_rows(np.arange(c["n"]), lens, r, P, c["stride"])])))
+            seen += o["h5"]["ids"]
+        if sorted(seen) != sorted(ser["ids"]):
+            fails.append(("keys-partition", "%s: ranks together loaded frames %s, the serial loader %s" % (what, sorted(seen), ser["ids"])))
+        return fails[:4]
     for r, o in enumerate(rk):
         for name in ("h5", "npy"):
             if not o[name]["equal"]:
@@ -1010,6 +1353,8 @@ def nontrivial(c, out):
         return False
     if c["kind"] in ("kc", "kcw", "hybrid"):
         return len(out["ranks"][0]["ctr"]) >= 2
+    if c["kind"] == "kmw":
+        return len(out["start"]["ctrs"]) >= 3
     return True
 
 
@@ -1084,8 +1429,55 @@ def tags(c, out):
             t.append("centres-on-several-ranks")
         if c["kind"] == "hybrid" and out["ranks"][0]["ctr"] is not None:
             t.append("pam-draws" if out.get("draws") else "pam-no-draws")
+    if c["kind"] == "ops" and c.get("ctrs") and "ctrs_flat" in out["ranks"][0]:
+        for cl in c["ctrs"]:
+            if len(cl) >= 3 and cl != sorted(cl):
+                t.append("ctrs-not-ascending")
+                if cl == sorted(cl, reverse=True):
+                    t.append("ctrs-descending")
+                if len({g_ for g_, p_ in ref_pairs(lens, P).items() if g_ in cl and p_[0] != ref_pairs(lens, P)[cl[0]][0]}) >= 1:
+                    t.append("ctrs-not-ascending-on-several-ranks")
+            elif len(cl) >= 3:
+                t.append("ctrs-ascending")
+    if c["kind"] == "kmw":
+        st = out["start"]
+        t.append("kmw-start-" + c["start"])
+        t.append(c["metric"])
+        if st["ctrs"] != sorted(st["ctrs"]):
+            t.append("kmw-centres-not-ascending")
+            if c["start"] == "kcenters":
+                t.append("kmw-kcenters-order-not-ascending")
+            if P >= 2:
+                t.append("kmw-centres-not-ascending-P>=2")
+        else:
+            t.append("kmw-centres-ascending")
+        if "err" not in out.get("serial", {"err": 1}):
+            if out["serial"]["ctrs"] != st["ctrs"]:
+                t.append("kmw-proposal-accepted")
+            else:
+                t.append("kmw-no-proposal-accepted")
+        if c["n_iters"] >= 2:
+            t.append("kmw-two-sweeps")
+        if len({p[0] for p in out["ranks"][0]["ctr"]}) >= 2:
+            t.append("centres-on-several-ranks")
     if c["kind"] == "io":
         t.append("stride=%d" % c["stride"])
+        if c.get("zrows"):
+            z = [i for i, L in enumerate(lens) if L == 0]
+            t.append("io-zero-row-table")
+            if 0 in z:
+                t.append("io-zero-row-table-first")
+            if len(lens) - 1 in z:
+                t.append("io-zero-row-table-last")
+            if any(0 < i < len(lens) - 1 for i in z):
+                t.append("io-zero-row-table-middle")
+            if len(z) >= 2:
+                t.append("io-two-zero-row-tables")
+            if any(sum(lens[i] for i in owned(lens, r, P)) == 0 for r in range(P)):
+                t.append("io-zero-row-rank-holds-no-frame")
+            if P >= 2:
+                t.append("io-zero-row-P>=2")
+            return t
         names = ["x%d_%02d" % ((7 * k + 3) % 10, k) for k in range(len(c["lens"]))]
         if names != sorted(names):
             t.append("io-file-names-not-sorted")
@@ -1103,7 +1495,13 @@ ESSENTIAL_TAGS = ["ops-all-negative", "kc", "kcw", "hybrid", "ops", "io", "P=1",
                   "rand-generators-out-of-step", "rand-packed", "rand-uneven-local-lengths", "rand-successive-draws",
                   "hybrid-generators-same", "hybrid-generators-seeds", "hybrid-generators-consumed", "hybrid-generators-none",
                   "asa-nonpositive-rejected", "asa-dtype-float", "asa-dtype-int", "asa-dtype-bool", "asa-float64", "asa-float32",
-                  "asa-float16", "asa-non-integral", "asa-values-below-1", "asa-2d-rows", "asa-1d"]
+                  "asa-float16", "asa-non-integral", "asa-values-below-1", "asa-2d-rows", "asa-1d",
+                  # round 3s, second wave
+                  "ctrs-not-ascending", "ctrs-descending", "ctrs-not-ascending-on-several-ranks", "ctrs-ascending",
+                  "kmw", "kmw-start-given", "kmw-start-kcenters", "kmw-centres-not-ascending", "kmw-kcenters-order-not-ascending",
+                  "kmw-centres-not-ascending-P>=2", "kmw-centres-ascending", "kmw-proposal-accepted", "kmw-two-sweeps",
+                  "io-zero-row-table", "io-zero-row-table-first", "io-zero-row-table-middle", "io-zero-row-table-last",
+                  "io-two-zero-row-tables", "io-zero-row-rank-holds-no-frame", "io-zero-row-P>=2"]
 
 
 def search(rng, tier):
